@@ -76,9 +76,9 @@ type obj struct {
 	junction bstream.BlockRef
 }
 
-func (o *obj) Cursor() *bstream.Cursor             { return o.cursor }
-func (o *obj) Step() bstream.StepType              { return o.step }
-func (o *obj) FinalBlockHeight() uint64            { return o.cursor.LIB.Num() }
+func (o *obj) Cursor() *bstream.Cursor              { return o.cursor }
+func (o *obj) Step() bstream.StepType               { return o.step }
+func (o *obj) FinalBlockHeight() uint64             { return o.cursor.LIB.Num() }
 func (o *obj) ReorgJunctionBlock() bstream.BlockRef { return o.junction }
 
 func mkBlock(s Step) (*pbbstream.Block, *obj) {
@@ -163,18 +163,18 @@ func (r *streamRunner) Run(ctx context.Context) error {
 
 // Config of one request.
 type Config struct {
-	Modules  *pbsubstreams.Modules
-	Output   string
-	Prod     bool
-	Seg      uint64
-	Start    int64
-	Stop     uint64
-	Cursor   string
-	Final    uint64 // final block known to tier1 (0 = unknown)
-	Dir      string // cache directory (the state store lives in Dir/test.store)
-	Workers  uint64
-	Source   Source // block source of tier1's linear part and of the tier2 jobs
-	Timeout  time.Duration
+	Modules *pbsubstreams.Modules
+	Output  string
+	Prod    bool
+	Seg     uint64
+	Start   int64
+	Stop    uint64
+	Cursor  string
+	Final   uint64 // final block known to tier1 (0 = unknown)
+	Dir     string // cache directory (the state store lives in Dir/test.store)
+	Workers uint64
+	Source  Source // block source of tier1's linear part and of the tier2 jobs
+	Timeout time.Duration
 	// WorkerFactory overrides the in-process tier2 worker (fault injection, remote worker over bufconn).
 	WorkerFactory func(base work.WorkerFactory) work.WorkerFactory
 	// OnJob is called when a tier2 job starts (unit) — observation only.
@@ -414,7 +414,7 @@ func Run(cfg Config) *Result {
 type nullEmitter struct{}
 
 func (nullEmitter) Emit(context.Context, dmetering.Event) {}
-func (nullEmitter) Shutdown(error)                         {}
+func (nullEmitter) Shutdown(error)                        {}
 
 // ---- cache directory helpers
 
